@@ -1,0 +1,88 @@
+//go:build verif
+
+package logger
+
+// Contracts for govc (contract-based deductive verification, see /verif/DESIGN.md).
+// Comment-only: with the tag off this file is not compiled, with it on it adds no code.
+
+// ---- C15: Logger.Relay ----
+// Ghost record counters of this thread: REQ_BEG / REQ_END / Error records handed to the handler, and the fields
+// they carried. Record structure (recLevel, recN, recAttr, strVal, intVal, anyVal), wire status, errorsSent,
+// panicking / pval / panicSeen are declared in /verif/contracts/std.
+//@ ghost var begs int
+//@ ghost var ends int
+//@ ghost var errs int
+//@ ghost var begIP string
+//@ ghost var begMethod string
+//@ ghost var begPath string
+//@ ghost var begTid string
+//@ ghost var endIP string
+//@ ghost var endMethod string
+//@ ghost var endPath string
+//@ ghost var endTid string
+//@ ghost var endCode int
+//@ ghost var errTid string
+//@ ghost var errPanic any
+//@ ghost var statusAtRecover int
+
+// a log handler: arbitrary code (it writes to a user-supplied io.Writer) assumed not to touch request-time state
+//@ iface Handler.Handle(h, ctx, r)
+//@   modifies region(originMem)
+//@   attr blocking yes
+
+//@ iface Handler.Enabled(h, l)
+//@   purefn
+//@   attr blocking no
+//@   modifies nothing
+
+//@ pure attrIs(r slog.Record, i int, k string, v slog.Value) bool = recAttr(r, i).Key == k && recAttr(r, i).Value == v
+//@ pure reqOK(store *httpd.Store) bool = store != nil && store.R != nil && store.W != nil && store.I != nil && store.W.Origin != nil
+
+//@ func (*Logger).Relay
+//@   requires l != nil && l.h != nil && reqOK(store) && store.I.HandlerFunc != nil && !panicking && !panicSeen
+//@   modifies region(userMem), fields(httpd.ResponseWriter.Status), ghostfields(wireCode), begs, ends, errs, statusAtRecover, begIP, begMethod, begPath, begTid, endIP, endMethod, endPath, endTid, endCode, errTid, errPanic, errorsSent, lastErrorCode, panicking, pval, panicSeen
+//@   ensures records.beg: begs == old(begs) + ite(l.h.Enabled(4), 1, 0)
+//@   ensures records.end: ends == old(ends) + ite(l.h.Enabled(4), 1, 0)
+//@   ensures records.sameFields: l.h.Enabled(4) ==> endIP == begIP && endMethod == begMethod && endPath == begPath && endTid == begTid
+//@   ensures end.code: l.h.Enabled(4) ==> endCode == store.W.Status && endCode != 0
+//@   ensures records.err: errs == old(errs) + ite(panicSeen && pval != any(http.ErrAbortHandler) && l.h.Enabled(12), 1, 0)
+//@   ensures err.fields: panicSeen && pval != any(http.ErrAbortHandler) && l.h.Enabled(12) ==> errPanic == pval && errTid == bytesText(store.id)
+//@   ensures fiveHundred: errorsSent == old(errorsSent) + ite(panicSeen && pval != any(http.ErrAbortHandler) && statusAtRecover == 0, 1, 0)
+//@   ensures fiveHundred.status: panicSeen && pval != any(http.ErrAbortHandler) && statusAtRecover == 0 ==> lastErrorCode == 500 && store.W.Status == 500
+//@   ensures contained: !panicking
+//@   ghost before call Handle assert beg.record: recLevel(r) == 4 && recN(r) == 5 && attrIs(r, 0, "tag", strVal("REQ_BEG")) && attrIs(r, 1, "ip", strVal(remoteIP)) && attrIs(r, 2, "method", strVal(store.R.Method)) && attrIs(r, 3, "path", strVal(store.R.RequestURI)) && attrIs(r, 4, "tid", strVal(bytesText(store.id)))
+//@   ghost after call Handle set begs = begs + 1
+//@   ghost after call Handle set begIP = remoteIP
+//@   ghost after call Handle set begMethod = store.R.Method
+//@   ghost after call Handle set begPath = store.R.RequestURI
+//@   ghost after call Handle set begTid = bytesText(store.id)
+
+// deferred first (runs last): the REQ_END record
+//@ func (*Logger).Relay$1
+//@   requires l != nil && l.h != nil && reqOK(store)
+//@   modifies region(userMem), store.W.Status, ends, endIP, endMethod, endPath, endTid, endCode
+//@   ensures count: ends == old(ends) + ite(l.h.Enabled(4), 1, 0)
+//@   ensures fields: l.h.Enabled(4) ==> endIP == remoteIP && endMethod == store.R.Method && endPath == store.R.RequestURI && endTid == bytesText(store.id) && endCode == store.W.Status && endCode != 0
+//@   ensures status: store.W.Status == old(store.W.Status) || (old(store.W.Status) == 0 && l.h.Enabled(4) && store.W.Status == 200)
+//@   ghost before call Handle assert end.record: recLevel(r) == 4 && recN(r) == 7 && recAttr(r, 0).Key == "tag" && attrIs(r, 1, "code", intVal(store.W.Status)) && recAttr(r, 2).Key == "dur" && attrIs(r, 3, "ip", strVal(remoteIP)) && attrIs(r, 4, "method", strVal(store.R.Method)) && attrIs(r, 5, "path", strVal(store.R.RequestURI)) && attrIs(r, 6, "tid", strVal(bytesText(store.id)))
+//@   ghost after call Handle set ends = ends + 1
+//@   ghost after call Handle set endIP = remoteIP
+//@   ghost after call Handle set endMethod = store.R.Method
+//@   ghost after call Handle set endPath = store.R.RequestURI
+//@   ghost after call Handle set endTid = bytesText(store.id)
+//@   ghost after call Handle set endCode = store.W.Status
+
+// deferred second (runs first): recover, Error record, 500 iff nothing was sent
+//@ func (*Logger).Relay$2
+//@   requires l != nil && l.h != nil && reqOK(store)
+//@   modifies region(userMem), fields(httpd.ResponseWriter.Status), ghostfields(wireCode), errs, errTid, errPanic, errorsSent, lastErrorCode, panicking, statusAtRecover
+//@   attr recovers yes
+//@   ensures recovered: !panicking
+//@   ensures quiet: !old(panicking) || old(pval) == any(http.ErrAbortHandler) ==> errs == old(errs) && errorsSent == old(errorsSent) && store.W.Status == old(store.W.Status)
+//@   ensures logged: old(panicking) && old(pval) != any(http.ErrAbortHandler) ==> errs == old(errs) + ite(l.h.Enabled(12), 1, 0) && (l.h.Enabled(12) ==> errPanic == old(pval) && errTid == bytesText(store.id))
+//@   ensures fiveHundred: old(panicking) && old(pval) != any(http.ErrAbortHandler) ==> statusAtRecover == old(store.W.Status) && (old(store.W.Status) == 0 ==> errorsSent == old(errorsSent) + 1 && lastErrorCode == 500 && store.W.Status == 500) && (old(store.W.Status) != 0 ==> errorsSent == old(errorsSent) && store.W.Status == old(store.W.Status))
+//@   ghost after call recover set statusAtRecover = store.W.Status
+//@   ghost before call Handle assert err.record: recLevel(r) == 12 && recN(r) == 2 && attrIs(r, 0, "panic", anyVal(err)) && attrIs(r, 1, "tid", strVal(bytesText(store.id)))
+//@   ghost after call Handle set errs = errs + 1
+//@   ghost after call Handle set errPanic = err
+//@   ghost after call Handle set errTid = bytesText(store.id)
